@@ -33,10 +33,13 @@ SCHEMA.globals = {
     "Unit._by_name": ("dict", ("str",), T_UNIT),
     "Unit._by_symbol": ("dict", ("str",), T_UNIT),
     "Unit._base": ("set", T_UNIT),
+    "conversions._ratios": ("dict2", T_UNIT, ("num",)),
+    "conversions._offsets": ("dict2", T_UNIT, ("num",)),
 }
 for _g in list(SCHEMA.globals):
     _c, _a = _g.split(".")
-    SCHEMA.class_attr[(_c, _a)] = _g
+    if _c != "conversions":
+        SCHEMA.class_attr[(_c, _a)] = _g
 
 SCHEMA.consts = {"Number": T_DIM, "IdentityPrefix": T_PFX, "One": T_UNIT}
 _CONST_Z = {n: z3.Const("g_" + n, sort_of(t)) for n, t in SCHEMA.consts.items()}
